@@ -20,6 +20,12 @@ func init() {
 			ruleReleasers(c, "C01.R6", "guards")
 			ruleReleasers(c, "C01.R6", "fresh")
 			ruleLivenessFailSafe(c, "C01.R6")
+			c.Rule("C01.R8", "a reload keeps every allocation whose ip is still configured (search exhaustion, range match, snapshot under the lock)", 5)
+			ruleReloadDeletesOnlyForeign(c, "C01.R8")
+			ruleReloadPoolMatch(c, "C01.R8")
+			ruleListUnderLock(c, "C01.R8")
+			c.Rule("C01.R9", "owner keys are compared for equality; prefix queries only with pool prefixes", 10)
+			ruleExactKeyQueries(c, "C01.R9")
 			c.Rule("C01.R7", "release events are queued only for pods that are gone or finished", 4)
 			ruleReleaseEventsQueued(c, "C01.R7")
 		}})
@@ -42,6 +48,14 @@ func init() {
 			ruleReleasers(c, "C04.R5", "fresh")
 			c.Rule("C04.R6", "release events only for gone/finished pods; failed unbind re-queued", 4)
 			ruleReleaseEventsQueued(c, "C04.R6")
+			c.Rule("C04.R8", "a reload keeps every allocation whose ip is still configured", 5)
+			ruleReloadDeletesOnlyForeign(c, "C04.R8")
+			ruleReloadPoolMatch(c, "C04.R8")
+			ruleListUnderLock(c, "C04.R8")
+			c.Rule("C04.R9", "owner keys are compared for equality; prefix queries only with pool prefixes", 10)
+			ruleExactKeyQueries(c, "C04.R9")
+			c.Rule("C04.R10", "bind waits for the old incarnation's delete event (UID guard)", 3)
+			ruleUIDGuard(c, "C04.R10")
 			c.Rule("C04.R7", "IPAM mutators under the pod lock (unbind, syncPodIP, resync, release)", 7)
 			rulePodLockAtMutators(c, "C04.R7")
 		}})
@@ -80,6 +94,8 @@ func init() {
 			ruleReleasers(c, "C03.R3", "fresh")
 			c.Rule("C03.R4", "events reach unbind; failed unbind re-queued", 4)
 			ruleReleaseEventsQueued(c, "C03.R4")
+			c.Rule("C03.R7", "reserve keeps the stored policy in store and memory alike", 3)
+			ruleCloneMatchesAssign(c, "C03.R7")
 			c.Rule("C03.R5", "stored policy is the pod's policy", 5)
 			ruleStoredPolicyIsPodPolicy(c, "C03.R5")
 			c.Rule("C03.R6", "unbind derives the policy from the pod", 3)
